@@ -265,3 +265,27 @@ Example nz_minus_zero_arrives_as_plus_zero :
   = [EImpl (fs_name nz_sig) [VStruct [VStr [120]; VInt 7; VFlt 0; VFlt 0]] [] []]
   /\ ins_seen env0 nz_sig nz_args <> ins_of nz_sig nz_args.
 Proof. split; [vm_compute; reflexivity|vm_compute; discriminate]. Qed.
+
+(* ---------- why [outs_skippable] is needed: int deep(out Node o, int a) with the caller's o holding a Node nested n
+   structs deep (2n-1 nesting levels on the wire: struct > list > struct > ...). The request carries o in front of a;
+   the dispatcher has to pass over it and skipField refuses more than maxSkipDepth = 512 levels: 256 structs pass,
+   257 make the call fail although the implementation never looks at o (same on the code: known finding
+   e2e/spurious-error/prefilled-out-argument-deeper-than-skip-limit) ---------- *)
+Fixpoint dp_chain (n : nat) (v : Z) : val :=
+  match n with
+  | O => VStruct [VInt v; VList []]
+  | S m => VStruct [VInt v; VList [dp_chain m (v + 1)%Z]]
+  end.
+Definition dp_sig : fsig :=
+  {| fs_name := [100; 101; 101; 112]; fs_ret := Some TI32; fs_args := [(TStruct sid_verife2e_Node, true); (TI32, false)] |}.
+Definition dp_impl : bytes -> list val -> smap -> smap -> impl_res :=
+  fun _ _ _ _ => IOk (Some (VInt 5)) [VStruct [VInt 1; VList []]] [] [].
+Definition dp_call (structs : nat) : call_res :=
+  fst (call env0 SR SP MAXP dp_impl (filters_of inv_res no_filters) (filters_of disp_res no_filters) [dp_sig] dp_sig
+            [dp_chain (structs - 1) 1; VInt 7] [] false 41 [79] 3000).
+Example dp_256_structs_pass : dp_call 256 = COk (Some (VInt 5)) [VStruct [VInt 1; VList []]] [].
+Proof. vm_compute. reflexivity. Qed.
+Example dp_257_structs_fail : dp_call 257 = CErr 1 sys_msg false.
+Proof. vm_compute. reflexivity. Qed.
+Example dp_257_typed : args_typed env0 (fs_args dp_sig) [dp_chain 256 1; VInt 7].
+Proof. unfold args_typed. repeat (apply Forall2_cons; [cbn [fst]; apply (has_type_b_sound env0 600); vm_compute; reflexivity|]). apply Forall2_nil. Qed.
